@@ -93,7 +93,7 @@ def password_classes(rng, h, bname, tier):
            ("text-ascii", H.pw_bytes(rng, rng.choice([6, 10, 20])).decode()),
            ("non-utf8", H.pw_bytes(rng, rng.choice([3, 9, 17]), "high")),
            ("letters", bytes(rng.choice(b"abcdefXYZ") for _ in range(rng.choice([4, 7, 12]))).decode()),
-           ("ws", H.pw_bytes(rng, rng.choice([5, 9, 14]), "ws"))]
+           ("ws", H.pw_bytes(rng, rng.choice([5, 9, 14]), "ws")), ("text-latin1", H.pw_latin1_text(rng, rng.choice([3, 6, 10])))]
     if t:
         for d in (-1, 0, 1):
             out.append((f"trunc{d:+d}", H.pw_bytes(rng, t + d)))
@@ -142,6 +142,10 @@ def work(run, names):
             ident = st.get("ident")
             for label, pw in pcs:
                 ctx = H.ctx_for(h, rng)
+                if label == "text-latin1" and "encoding" in getattr(h, "context_kwds", ()) and bname != "lmhash":
+                    ctx["encoding"] = "latin-1"
+                    if "user" in ctx:
+                        ctx["user"], ctx["realm"] = "üser", "réalm"
                 secret = pw.encode("utf-8") if isinstance(pw, str) else pw
                 adm = admissible(bname, secret, ctx)
                 try:
@@ -211,6 +215,11 @@ def work(run, names):
                     probe = m
                     if isinstance(pw, str) and H.is_utf8(m) and rng.random() < 0.5:
                         probe = m.decode("utf-8")
+                    if bname == "lmhash" and not m.isascii():
+                        # lmhash takes bytes as already encoded in its code page (and folds case on text only): judge text
+                        if not H.is_utf8(m):
+                            continue
+                        probe = m.decode("utf-8")
                     try:
                         got = h.verify(probe, hs, **ctx)
                     except (ValueError, TypeError):
@@ -274,6 +283,9 @@ def libpass(run):
                     skw = dict(salt=salt if i % 2 else salt.encode())
                 elif i % 3 and name.startswith("pbkdf2"):
                     skw = dict(salt=H.pw_bytes(rng, rng.choice([1, 8, 16, 24]), "binary"))
+                elif i % 3 and "bcrypt" in name:
+                    import bcrypt as _b
+                    skw = dict(salt=_b.gensalt(rounds=rng.choice([4, 5, 6]), prefix=b"2b"))   # a salt whose cost may differ from the hasher's
                 w["salt"] = skw.get("salt")
                 hs = hh.hash(pw, **skw)
                 idf = hh.identify(hs)
